@@ -103,20 +103,28 @@ End VRR2.
 
 (* locality: the entry (a, m) reads beta only at m .. m + a + 1 (at most) *)
 
-Lemma Vf2_local pa pcw v w (b1 b2 : nat -> F) : forall a m,
-  (forall k, k <= S a -> b1 (m + k)%nat = b2 (m + k)%nat) ->
-  Vf2 pa pcw v w b1 a m = Vf2 pa pcw v w b2 a m /\ Vf2 pa pcw v w b1 (S a) m = Vf2 pa pcw v w b2 (S a) m.
+Lemma Vf2_local_both pa pcw v w (b1 b2 : nat -> F) : forall a,
+  (forall m, (forall k, k <= a -> b1 (m + k)%nat = b2 (m + k)%nat) ->
+     Vf2 pa pcw v w b1 a m = Vf2 pa pcw v w b2 a m) /\
+  (forall m, (forall k, k <= S a -> b1 (m + k)%nat = b2 (m + k)%nat) ->
+     Vf2 pa pcw v w b1 (S a) m = Vf2 pa pcw v w b2 (S a) m).
 Proof.
-  induction a as [|a IH]; intros m H.
-  - pose proof (H 0%nat ltac:(lia)) as H0. pose proof (H 1%nat ltac:(lia)) as H1.
-    rewrite Nat.add_0_r in H0. rewrite Nat.add_1_r in H1.
-    split; [rewrite !Vf2_0; exact H0 | rewrite !Vf2_1; now rewrite H0, H1].
-  - assert (Hm : forall k, k <= S a -> b1 (m + k)%nat = b2 (m + k)%nat) by (intros; apply H; lia).
-    assert (HSm : forall k, k <= S a -> b1 (S m + k)%nat = b2 (S m + k)%nat).
-    { intros k Hk. replace (S m + k)%nat with (m + S k)%nat by lia. apply H. lia. }
-    destruct (IH m Hm) as [E0 E1]. destruct (IH (S m) HSm) as [F0 F1].
-    split; [exact E1|]. rewrite !Vf2_SS. now rewrite E0, E1, F0, F1.
+  induction a as [|a [IH0 IH1]].
+  - split; intros m H.
+    + rewrite !Vf2_0. specialize (H 0%nat ltac:(lia)). now rewrite Nat.add_0_r in H.
+    + pose proof (H 0%nat ltac:(lia)) as H0. pose proof (H 1%nat ltac:(lia)) as H1.
+      rewrite Nat.add_0_r in H0. rewrite Nat.add_1_r in H1. rewrite !Vf2_1. now rewrite H0, H1.
+  - split; [exact IH1|]. intros m H. rewrite !Vf2_SS.
+    rewrite (IH1 m) by (intros; apply H; lia).
+    rewrite (IH0 m) by (intros; apply H; lia).
+    rewrite (IH1 (S m)) by (intros k Hk; replace (S m + k)%nat with (m + S k)%nat by lia; apply H; lia).
+    rewrite (IH0 (S m)) by (intros k Hk; replace (S m + k)%nat with (m + S k)%nat by lia; apply H; lia).
+    reflexivity.
 Qed.
+Lemma Vf2_local pa pcw v w (b1 b2 : nat -> F) a m :
+  (forall k, k <= a -> b1 (m + k)%nat = b2 (m + k)%nat) ->
+  Vf2 pa pcw v w b1 a m = Vf2 pa pcw v w b2 a m.
+Proof. apply (Vf2_local_both pa pcw v w b1 b2 a). Qed.
 
 (* the two-electron vertical recursion IS the one-electron recursion of Gauss/SPoly.v (Vf) for the
    rescaled sequence beta'_m = w^m beta_m and pc := PQ: V'[m][a] = w^m V[m][a] *)
@@ -167,6 +175,26 @@ Proof.
   { induction c as [|c [IH0 IH1]].
     - split; intros a; [rewrite !ETf_0; apply H|]. rewrite !ETf_1, !H. reflexivity.
     - split; [exact IH1|]. intros a. rewrite !ETf_SS, !IH1, !IH0. reflexivity. }
+  intros c. apply (G c).
+Qed.
+
+(* locality: E[c][a] reads the starting line only at a - c .. a + c *)
+Lemma ETf_local E0 E0' : forall c a, (forall j, a - c <= j <= a + c -> E0 j = E0' j) ->
+  ETf E0 c a = ETf E0' c a.
+Proof.
+  assert (G : forall c,
+    (forall a, (forall j, a - c <= j <= a + c -> E0 j = E0' j) -> ETf E0 c a = ETf E0' c a) /\
+    (forall a, (forall j, a - S c <= j <= a + S c -> E0 j = E0' j) -> ETf E0 (S c) a = ETf E0' (S c) a)).
+  { induction c as [|c [IH0 IH1]].
+    - split; intros a H.
+      + rewrite !ETf_0. apply H. lia.
+      + rewrite !ETf_1. rewrite (H a), (H (a - 1)%nat), (H (S a)) by lia. reflexivity.
+    - split; [exact IH1|]. intros a H. rewrite !ETf_SS.
+      rewrite (IH1 a) by (intros; apply H; lia).
+      rewrite (IH1 (a - 1)%nat) by (intros; apply H; lia).
+      rewrite (IH1 (S a)) by (intros; apply H; lia).
+      rewrite (IH0 a) by (intros; apply H; lia).
+      reflexivity. }
   intros c. apply (G c).
 Qed.
 
@@ -282,6 +310,109 @@ Proof.
     apply etransfer_table_is_moment. intros a'. apply Pw_is_moment.
 Qed.
 End Axis.
+
+(* ================= three axes ================= *)
+(* product of s-polynomials *)
+Fixpoint pmul (f g : list F) : list F :=
+  match f with [] => [] | c :: f' => padd (pscale c g) (0 :: pmul f' g) end.
+Lemma peval_pmul f g s : peval (pmul f g) s = peval f s * peval g s.
+Proof. induction f as [|c f IH]; cbn [pmul SPoly.peval]; [ring|].
+  rewrite (peval_padd K Kf), (peval_pscale K Kf), (peval_shift K Kf), IH. ring. Qed.
+Lemma Phi_ext b1 b2 : (forall m, b1 m = b2 m) -> forall f m, Phi b1 m f = Phi b2 m f.
+Proof. intros H. induction f as [|c f IH]; intros m; cbn [SPoly.Phi]; [reflexivity|].
+  now rewrite H, IH. Qed.
+(* a pass whose starting sequence is itself Phi of a polynomial Q multiplies the polynomials *)
+Lemma Phi_compose beta Q : forall P m, Phi (fun m' => Phi beta m' Q) m P = Phi beta m (pmul P Q).
+Proof. induction P as [|c P IH]; intros m; cbn [pmul SPoly.Phi]; [reflexivity|].
+  rewrite (Phi_padd K Kf), (Phi_pscale K Kf), (Phi_shift K Kf), IH. reflexivity. Qed.
+
+Section ThreeD.
+Variables (p q : F) (PAx PAy PAz QCx QCy QCz PQx PQy PQz : F).
+Hypothesis Hp : p <> 0.
+Hypothesis Hq : q <> 0.
+Hypothesis Hpq : p + q <> 0.
+Hypothesis H2 : 1 + 1 <> 0.
+Variable beta : nat -> F.
+
+Let w := rho K p q / p.
+Let v := 1 / ((1 + 1) * p).
+Let twoq := (1 + 1) * q.
+Let r := p / q.
+
+(* the vertical recursion run along x, then y (every ax), then z (every ax, ay) *)
+Definition V3 (ax ay az m : nat) : F :=
+  Vf2 PAz (w * PQz) v w
+    (fun m2 => Vf2 PAy (w * PQy) v w (fun m1 => Vf2 PAx (w * PQx) v w beta ax m1) ay m2) az m.
+Definition P3 (ax ay az : nat) : list F :=
+  pmul (Pw PAz (w * PQz) v w az) (pmul (Pw PAy (w * PQy) v w ay) (Pw PAx (w * PQx) v w ax)).
+
+Theorem V3_is_Phi ax ay az m : V3 ax ay az m = Phi beta m (P3 ax ay az).
+Proof.
+  unfold V3, P3. rewrite vrr2_entry_is_Phi.
+  rewrite <- Phi_compose. apply Phi_ext. intros m2.
+  rewrite vrr2_entry_is_Phi, <- Phi_compose. apply Phi_ext. intros m1. apply vrr2_entry_is_Phi.
+Qed.
+Theorem P3_eval ax ay az s :
+  peval (P3 ax ay az) s = Ms K p q PAz QCz PQz s az 0
+                          * (Ms K p q PAy QCy PQy s ay 0 * Ms K p q PAx QCx PQx s ax 0).
+Proof.
+  unfold P3. rewrite !peval_pmul. unfold w, v.
+  rewrite (Pw_is_moment p q PAx QCx PQx Hp H2), (Pw_is_moment p q PAy QCy PQy Hp H2),
+          (Pw_is_moment p q PAz QCz PQz Hp H2). reflexivity.
+Qed.
+
+(* the electron transfer run along x, then y, then z, on a three-index table W *)
+Definition E3 (W : nat -> nat -> nat -> F) (cx cy cz ax ay az : nat) : F :=
+  ETf (QCz + r * PAz) twoq r (fun az' =>
+    ETf (QCy + r * PAy) twoq r (fun ay' =>
+      ETf (QCx + r * PAx) twoq r (fun ax' => W ax' ay' az') cx ax) cy ay) cz az.
+Definition R3 (cx cy cz ax ay az : nat) : list F :=
+  ETp (QCz + r * PAz) twoq r (fun az' =>
+    ETp (QCy + r * PAy) twoq r (fun ay' =>
+      ETp (QCx + r * PAx) twoq r (fun ax' => P3 ax' ay' az') cx ax) cy ay) cz az.
+
+(* Three axes, end to end: [a0|c0]^(0) after the vertical and the transfer recursions is Phi_0 of a
+   polynomial in s whose value at every s is the product over the axes of the bivariate moments. *)
+Theorem eri_3d_correct cx cy cz ax ay az :
+  E3 (fun ax ay az => V3 ax ay az 0) cx cy cz ax ay az = Phi beta 0 (R3 cx cy cz ax ay az)
+  /\ forall s, peval (R3 cx cy cz ax ay az) s
+               = Ms K p q PAx QCx PQx s ax cx * Ms K p q PAy QCy PQy s ay cy
+                 * Ms K p q PAz QCz PQz s az cz.
+Proof.
+  split.
+  - unfold R3, E3.
+    rewrite (ETp_linear _ twoq r (Phi beta 0) (Phi_padd K Kf beta 0) (fun k f => Phi_pscale K Kf beta 0 k f)).
+    apply ETf_ext. intros az'.
+    rewrite (ETp_linear _ twoq r (Phi beta 0) (Phi_padd K Kf beta 0) (fun k f => Phi_pscale K Kf beta 0 k f)).
+    apply ETf_ext. intros ay'.
+    rewrite (ETp_linear _ twoq r (Phi beta 0) (Phi_padd K Kf beta 0) (fun k f => Phi_pscale K Kf beta 0 k f)).
+    apply ETf_ext. intros ax'. apply V3_is_Phi.
+  - intros s. unfold R3.
+    set (ell := fun f => peval f s).
+    assert (La : forall f g, ell (padd f g) = ell f + ell g) by (intros; apply (peval_padd K Kf)).
+    assert (Ls : forall k f, ell (pscale k f) = k * ell f) by (intros; apply (peval_pscale K Kf)).
+    change (peval ?f s) with (ell f).
+    rewrite (ETp_linear _ twoq r ell La Ls).
+    rewrite (ETf_ext _ twoq r _ (fun az' => Ms K p q PAz QCz PQz s az' 0
+               * (Ms K p q PAx QCx PQx s ax cx * Ms K p q PAy QCy PQy s ay cy))).
+    2:{ intros az'. rewrite (ETp_linear _ twoq r ell La Ls).
+        rewrite (ETf_ext _ twoq r _ (fun ay' => Ms K p q PAy QCy PQy s ay' 0
+                   * (Ms K p q PAx QCx PQx s ax cx * Ms K p q PAz QCz PQz s az' 0))).
+        2:{ intros ay'. rewrite (ETp_linear _ twoq r ell La Ls).
+            rewrite (ETf_ext _ twoq r _ (fun ax' => Ms K p q PAx QCx PQx s ax' 0
+                       * (Ms K p q PAy QCy PQy s ay' 0 * Ms K p q PAz QCz PQz s az' 0))).
+            2:{ intros ax'. unfold ell. rewrite P3_eval. ring. }
+            rewrite ETf_scale. unfold twoq, r.
+            rewrite (etransfer_table_is_moment p q PAx QCx PQx Hp Hq Hpq H2 s) by reflexivity.
+            ring. }
+        rewrite ETf_scale. unfold twoq, r.
+        rewrite (etransfer_table_is_moment p q PAy QCy PQy Hp Hq Hpq H2 s) by reflexivity.
+        ring. }
+    rewrite ETf_scale. unfold twoq, r.
+    rewrite (etransfer_table_is_moment p q PAz QCz PQz Hp Hq Hpq H2 s) by reflexivity.
+    ring.
+Qed.
+End ThreeD.
 
 (* ================= horizontal recursion (hstep), abstract ================= *)
 Section HRR.
@@ -507,5 +638,35 @@ Proof.
   intros x' y' z' _ _ _ _. destruct axis as [|[|ax]]; reflexivity.
 Qed.
 End HIterList.
+
+(* ---- the all-s closed form (_two_elec_int.py:8-145) is the general path with L = 0 ---- *)
+Definition eri_pref (A B C D : F * F * F) (alpha beta gamma delta : F) : F :=
+  let p := alpha + beta in let q := gamma + delta in
+  let ab2 := (fst (fst A) - fst (fst B)) * (fst (fst A) - fst (fst B))
+             + (snd (fst A) - snd (fst B)) * (snd (fst A) - snd (fst B))
+             + (snd A - snd B) * (snd A - snd B) in
+  let cd2 := (fst (fst C) - fst (fst D)) * (fst (fst C) - fst (fst D))
+             + (snd (fst C) - snd (fst D)) * (snd (fst C) - snd (fst D))
+             + (snd C - snd D) * (snd C - snd D) in
+  (1 + 1) * (fpi K * fpi K * fsqrt K (fpi K)) / (p * q * fsqrt K (p + q))
+  * fexp K (- (alpha * beta / p * ab2)) * fexp K (- (gamma * delta / q * cd2)).
+Definition eri_T (A B C D : F * F * F) (alpha beta gamma delta : F) : F :=
+  let p := alpha + beta in let q := gamma + delta in
+  let Px := (alpha * fst (fst A) + beta * fst (fst B)) / p in
+  let Py := (alpha * snd (fst A) + beta * snd (fst B)) / p in
+  let Pz := (alpha * snd A + beta * snd B) / p in
+  let Qx := (gamma * fst (fst C) + delta * fst (fst D)) / q in
+  let Qy := (gamma * snd (fst C) + delta * snd (fst D)) / q in
+  let Qz := (gamma * snd C + delta * snd D) / q in
+  p * q / (p + q) * ((Px - Qx) * (Px - Qx) + (Py - Qy) * (Py - Qy) + (Pz - Qz) * (Pz - Qz)).
+
+Theorem all_s_closed_form A B C D alpha beta gamma delta :
+  eri_prim K 0 0 A B C D alpha beta gamma delta
+  = [[[ [[[ fapx K (eri_pref A B C D alpha beta gamma delta
+                    * fboys K 0 (eri_T A B C D alpha beta gamma delta)) ]]] ]]].
+Proof.
+  destruct A as [[Ax Ay] Az], B as [[Bx By] Bz], C as [[Cx Cy] Cz], D as [[Dx Dy] Dz].
+  reflexivity.
+Qed.
 
 End Lists.
